@@ -5,6 +5,7 @@
 import KiraModel.Exec.SuiteUnits
 import KiraModel.Exec.SuiteParam
 import KiraModel.Exec.SuiteFinal
+import KiraModel.Exec.SuiteSrate
 
 open K.Exec
 
@@ -22,6 +23,7 @@ def suiteOf (name : String) : Option Suite :=
   | "units" => some (statelessSuite unitsStep)
   | "param" => some { σ := ParamState, init := {}, step := paramStep }
   | "final" => some { σ := FinalState, init := {}, step := finalStep }
+  | "srate" => some { σ := K.SR.State, init := K.SR.init 0, step := srateStep }
   | _ => none
 
 def tokens (line : String) : List String :=
